@@ -330,6 +330,21 @@ func (dm *ClusterDMap) Expire(ctx context.Context, key string, timeout time.Dura
 	return processProtocolError(cmd.Err())
 }
 
+// lockClient returns a client that waits for the reply of a DM.LOCK command as
+// long as the server may take to send it. The server answers when it acquires the
+// lock or when the deadline is over. With a read timeout shorter than the deadline
+// the client gives the request up and sends it again: the caller gets an i/o timeout
+// instead of ErrLockNotAcquired, and one of the abandoned requests may still acquire
+// the lock for nobody.
+func lockClient(rc *redis.Client, deadline time.Duration) *redis.Client {
+	readTimeout := rc.Options().ReadTimeout
+	if readTimeout <= 0 {
+		// No read timeout.
+		return rc
+	}
+	return rc.WithTimeout(deadline + readTimeout)
+}
+
 // Lock sets a lock for the given key. Acquired lock is only for the key in
 // this dmap.
 //
@@ -345,7 +360,7 @@ func (dm *ClusterDMap) Lock(ctx context.Context, key string, deadline time.Durat
 	}
 
 	cmd := protocol.NewLock(dm.name, key, deadline.Seconds()).Command(ctx)
-	err = rc.Process(ctx, cmd)
+	err = lockClient(rc, deadline).Process(ctx, cmd)
 	if err != nil {
 		return nil, processProtocolError(err)
 	}
@@ -377,7 +392,7 @@ func (dm *ClusterDMap) LockWithTimeout(ctx context.Context, key string, timeout,
 	}
 
 	cmd := protocol.NewLock(dm.name, key, deadline.Seconds()).SetPX(timeout.Milliseconds()).Command(ctx)
-	err = rc.Process(ctx, cmd)
+	err = lockClient(rc, deadline).Process(ctx, cmd)
 	if err != nil {
 		return nil, processProtocolError(err)
 	}
